@@ -8,13 +8,15 @@
     behind (`C08_run_ignores_globals`: a new context and a stack reset per file), and what earlier files wrote —
     a rules file — is not among the inputs of later files (`C08_update_inputs_untouched`), so each file's regex in
     an --all run is the regex of a single run on the original tree (`C08_update_regex_same`).
-  NOT proved: that the rules-file splices of different rules commute (needed for "any order" of update at the level of
-  rules-file bytes; follows from C11_frame when the rules address different lines) — checked by the oracle
-  (--all vs single invocations in random orders on the real binary).
+  * the rules-file splices of two rules that address different lines commute (`C08_update_splices_commute`): in
+    either order both updates succeed and leave the same bytes, so the order of an --all walk does not show in the
+    rules file either. The oracle (--all vs single invocations in random orders on the real binary) samples the same.
 -/
 import Crs.Cli
+import CrsProofs.Update
+import CrsProps.C12
 namespace Crs.Props
-open Crs Crs.Cli Crs.Format
+open Crs Crs.Cli Crs.Format Crs.Update
 
 /-! ### the line tools: --all is a map -/
 
@@ -182,5 +184,112 @@ theorem C08_update_regex_same (E : Asm.Engine) (cfg : Asm.Config) (o1 o2 : Parse
     (runFile E cfg o1 o2 g1 (fsOf t') other).2 = (runFile E cfg o1 o2 g2 (fsOf t) other).2 := by
   rw [(C08_update_inputs_untouched E cfg o1 o2 g t t' input id k h).1]
   rfl
+
+/-! ### update: the splices of different rules commute -/
+
+theorem updateRegex_anatomy (c id : Bytes) (k : Nat) (r c' : Bytes) (h : updateRegex c id k r = .ok c') :
+    ∃ i line pre old post, targetIndex id k 0 (splitNl c) = .ok i ∧ (splitNl c)[i]? = some line ∧
+      splitOperand line = some (pre, old, post) ∧ c' = joinNl (setAt (splitNl c) i (pre ++ r ++ post)) := by
+  unfold updateRegex at h
+  simp only at h
+  split at h
+  · simp at h
+  · rename_i i hi
+    split at h
+    · simp at h
+    · rename_i line hline
+      split at h
+      · simp at h
+      · rename_i pre old post hop
+        simp only [Except.ok.injEq] at h
+        exact ⟨i, line, pre, old, post, hi, hline, hop, h.symm⟩
+
+theorem updateRegex_of_anatomy (c id : Bytes) (k : Nat) (r : Bytes) (i : Nat) (line pre old post : Bytes)
+    (hi : targetIndex id k 0 (splitNl c) = .ok i) (hline : (splitNl c)[i]? = some line)
+    (hop : splitOperand line = some (pre, old, post)) :
+    updateRegex c id k r = .ok (joinNl (setAt (splitNl c) i (pre ++ r ++ post))) := by
+  unfold updateRegex
+  simp only [hi, hline, hop]
+
+/-- the lines of the file after a splice -/
+theorem splitNl_after_splice (c : Bytes) (i : Nat) (line pre old post r : Bytes) (hline : (splitNl c)[i]? = some line)
+    (hop : splitOperand line = some (pre, old, post)) (hr : '\n' ∉ r) :
+    splitNl (joinNl (setAt (splitNl c) i (pre ++ r ++ post))) = setAt (splitNl c) i (pre ++ r ++ post) := by
+  obtain ⟨hl, _, _⟩ := splitOperand_shape line pre old post hop
+  have hmem : (pre ++ old ++ post) ∈ splitNl c := by rw [← hl]; exact List.mem_of_getElem? hline
+  have hno := splitNl_lines_noNl c _ hmem
+  apply splitNl_joinNl
+  · intro e
+    have := setAt_length (splitNl c) i (pre ++ r ++ post)
+    rw [e] at this
+    exact splitNl_ne_nil c (List.length_eq_zero_iff.mp this.symm)
+  · intro l hl'
+    rcases setAt_mem _ _ _ _ hl' with rfl | hl'
+    · intro hm
+      simp only [List.mem_append] at hm hno
+      rcases hm with (hm | hm) | hm
+      · exact hno (Or.inl (Or.inl hm))
+      · exact hr hm
+      · exact hno (Or.inr hm)
+    · exact splitNl_lines_noNl c l hl'
+
+theorem setAt_comm (ls : List Bytes) (i j : Nat) (x y : Bytes) (h : i ≠ j) :
+    setAt (setAt ls i x) j y = setAt (setAt ls j y) i x := by
+  induction ls generalizing i j with
+  | nil => simp [setAt]
+  | cons l ls ih =>
+    cases i with
+    | zero =>
+      cases j with
+      | zero => exact absurd rfl h
+      | succ j => simp [setAt]
+    | succ i =>
+      cases j with
+      | zero => simp [setAt]
+      | succ j => simp only [setAt]; rw [ih i j (fun e => h (by rw [e]))]
+
+/-- **C08 (update, any order).** Two updates that succeed on the same rules file and address different lines can be
+    made one after the other in either order: both orders succeed and leave the same bytes. (`KeepsClass`: the rewritten
+    operand lines still carry — or still do not carry — the keyword `SecRule`, as in C12.) -/
+theorem C08_update_splices_commute (c id1 id2 : Bytes) (k1 k2 : Nat) (r1 r2 c1 c2 : Bytes)
+    (h1 : updateRegex c id1 k1 r1 = .ok c1) (h2 : updateRegex c id2 k2 r2 = .ok c2)
+    (hr1 : '\n' ∉ r1) (hr2 : '\n' ∉ r2)
+    (hdiff : targetIndex id1 k1 0 (splitNl c) ≠ targetIndex id2 k2 0 (splitNl c))
+    (hk1 : ∀ (i : Nat) (pre old post : Bytes), (splitNl c)[i]? = some (pre ++ old ++ post) → KeepsClass (pre ++ old ++ post) (pre ++ r1 ++ post))
+    (hk2 : ∀ (i : Nat) (pre old post : Bytes), (splitNl c)[i]? = some (pre ++ old ++ post) → KeepsClass (pre ++ old ++ post) (pre ++ r2 ++ post)) :
+    ∃ c', updateRegex c1 id2 k2 r2 = .ok c' ∧ updateRegex c2 id1 k1 r1 = .ok c' := by
+  obtain ⟨i1, line1, pre1, old1, post1, hi1, hl1, hop1, e1⟩ := updateRegex_anatomy c id1 k1 r1 c1 h1
+  obtain ⟨i2, line2, pre2, old2, post2, hi2, hl2, hop2, e2⟩ := updateRegex_anatomy c id2 k2 r2 c2 h2
+  have hne : i1 ≠ i2 := by
+    intro e; apply hdiff; rw [hi1, hi2, e]
+  obtain ⟨hs1, _, _⟩ := splitOperand_shape line1 pre1 old1 post1 hop1
+  obtain ⟨hs2, _, _⟩ := splitOperand_shape line2 pre2 old2 post2 hop2
+  have hl1' : (splitNl c)[i1]? = some (pre1 ++ old1 ++ post1) := by rw [hl1, hs1]
+  have hl2' : (splitNl c)[i2]? = some (pre2 ++ old2 ++ post2) := by rw [hl2, hs2]
+  -- the lines after each single update
+  have L1 : splitNl c1 = setAt (splitNl c) i1 (pre1 ++ r1 ++ post1) := by
+    rw [e1]; exact splitNl_after_splice c i1 line1 pre1 old1 post1 r1 hl1 hop1 hr1
+  have L2 : splitNl c2 = setAt (splitNl c) i2 (pre2 ++ r2 ++ post2) := by
+    rw [e2]; exact splitNl_after_splice c i2 line2 pre2 old2 post2 r2 hl2 hop2 hr2
+  -- the lookups do not move
+  have T2 : targetIndex id2 k2 0 (splitNl c1) = .ok i2 := by
+    rw [L1, targetIndex_setAt id2 k2 0 (splitNl c) i1 _ _ hl1' (isIdLine_operand_line id2 line1 pre1 old1 post1 r1 hop1)
+      (hk1 i1 pre1 old1 post1 hl1'), hi2]
+  have T1 : targetIndex id1 k1 0 (splitNl c2) = .ok i1 := by
+    rw [L2, targetIndex_setAt id1 k1 0 (splitNl c) i2 _ _ hl2' (isIdLine_operand_line id1 line2 pre2 old2 post2 r2 hop2)
+      (hk2 i2 pre2 old2 post2 hl2'), hi1]
+  have G2 : (splitNl c1)[i2]? = some line2 := by rw [L1, setAt_getElem?_other _ _ _ _ (Ne.symm hne), hl2]
+  have G1 : (splitNl c2)[i1]? = some line1 := by rw [L2, setAt_getElem?_other _ _ _ _ hne, hl1]
+  refine ⟨joinNl (setAt (setAt (splitNl c) i1 (pre1 ++ r1 ++ post1)) i2 (pre2 ++ r2 ++ post2)), ?_, ?_⟩
+  · rw [updateRegex_of_anatomy c1 id2 k2 r2 i2 line2 pre2 old2 post2 T2 G2 hop2, L1]
+  · rw [updateRegex_of_anatomy c2 id1 k1 r1 i1 line1 pre1 old1 post1 T1 G1 hop1, L2, setAt_comm _ _ _ _ _ hne]
+
+/-- non-vacuity: the two rules of a small rules file, updated in both orders -/
+example :
+    let c : Bytes := "SecRule ARGS \"@rx a\" \\\n    \"id:942100\"\nSecRule ARGS \"!@rx old\" \\\n    \"id:942110,\\\n    phase:2\"\n".toList
+    (updateRegex c b!"942100" 0 b!"x|y").bind (fun c1 => updateRegex c1 b!"942110" 0 b!"SecRule id:942100") =
+      (updateRegex c b!"942110" 0 b!"SecRule id:942100").bind (fun c2 => updateRegex c2 b!"942100" 0 b!"x|y") ∧
+    ((updateRegex c b!"942100" 0 b!"x|y").bind (fun c1 => updateRegex c1 b!"942110" 0 b!"SecRule id:942100")).toOption.isSome = true := by
+  decide +kernel
 
 end Crs.Props
